@@ -555,7 +555,7 @@ def value_point(rng, sol, sig, vals=None):
     if sol == 'rans_sa':
         return [hexf(exact_double(rng, 0.05, 0.95))]
     if sol == 'fans_sa_steady_wall_bounded':      # x, y > 0; wall distances over two decades
-        return [hexf(exact_double(rng, 0.2, 2.0)), hexf(round(10.0 ** rng.uniform(-3.3, -0.3) * 2 ** 24) / 2.0 ** 24)][:n]     # wall distances over three decades; nu_sa > 0 needs y < kappa u_tau / alpha
+        return [hexf(exact_double(rng, 0.2, 2.0)), hexf(round(10.0 ** rng.uniform(-6.0, -0.3) * 2 ** 40) / 2.0 ** 40)][:n]     # wall distances over almost six decades (an absolute perturbation of the wall distance shows only very near the wall); nu_sa > 0 needs y < kappa u_tau / alpha
     if sol == 'euler_chem_1d':
         return [hexf(exact_double(rng, 0.0, 8.0))]
     if sol == 'sod_1d':
